@@ -110,7 +110,12 @@ def step (line : String) : String :=
     | .eof => "eof"
     | .err => "err"
     | .ok d rest => "ok " ++ showDecoded d ++ s!" consumed={s.length - rest.length}"
+  | ["deccur", h] => withHex h fun s => match readHeaderCur s with
+    | .eof => "eof"
+    | .err => "err"
+    | .ok d rest => "ok " ++ showDecoded d ++ s!" consumed={s.length - rest.length}"
   | ["iter", h] => withHex h fun s => let (es, e) := iterate s; showIter es e
+  | ["itercur", h] => withHex h fun s => let (es, e) := iterateCur s; showIter es e
   | _ => "bad-op"
 
 def run (_args : List String) : IO Unit := do
